@@ -34,8 +34,47 @@ def guard_kind(K, cond, classes=("cxxUse",)):
     return ks
 
 
+def bind_rule(P, R, K):
+    """A reaction step of cell i reads each of its reactants from slot i of that kind's store and the save step writes the
+    products back to slot i: chained sub-steps (incremental reactions, kinetic sub-steps, transport shifts) pass one step's
+    products into the next through that slot.  A binder that looks one kind up under another key (e.g. the user's original
+    number) makes every sub-step start again from the initial reactant: its elements are created or lost."""
+    R.rule("C02.bind", "cell binders look every reactant kind up under the cell parameter; set_use under that kind's own use number", minimum=40)
+    for q in ("Phreeqc::set_reaction", "Phreeqc::set_transport", "Phreeqc::set_advection", "Phreeqc::set_use"):
+        f = P.one(q)
+        cell = f["pnames"][0] if f["pnames"] else None
+        n = 0
+        for c in T.calls(f["body"]):
+            if T.callee_name(c) != "Rxn_find" or len(c[4]) != 2:
+                continue
+            st = T.strip_casts(c[4][0])
+            if not (st[0] == "Member" and st[2].startswith("Phreeqc::")):
+                continue
+            store = st[2].split("::")[-1]
+            key = T.strip_casts(c[4][1])
+            n += 1
+            inst = "%s:%s@%d" % (q.split("::")[-1], store, c[1])
+            where = dict(file=f["file"], line=c[1], function=f["q"])
+            if q.endswith("set_use"):
+                kinds = K.of_name(store)
+                okk = key[0] == "Call" and T.callee_name(key).startswith("Get_n_") and T.callee_name(key).endswith("_user") and K.of_name(T.callee_name(key)) == kinds and kinds
+                if okk:
+                    R.ok("C02.bind", inst, "keyed by %s" % T.callee_name(key))
+                else:
+                    R.violation("C02.bind", inst, "set_use looks %s up under `%s`, not under that kind's own use number" % (store, T.text(key)[:60]), **where)
+            else:
+                if key[0] == "Ref" and key[2] == "param" and key[3] == cell:
+                    R.ok("C02.bind", inst, "keyed by the cell parameter `%s`" % cell)
+                else:
+                    R.violation("C02.bind", inst, "%s looks %s up under `%s` instead of the cell parameter `%s`: the products the previous sub-step saved in slot %s are not the "
+                                "reactant of the next one" % (q.split("::")[-1], store, T.text(key)[:60], cell, cell), **where)
+        if n < 8:
+            R.anchor_missing("C02.bind", "%s: only %d store look-ups found" % (q, n))
+
+
 def run(P, R, tier):
     K = KN.get(P)
+    bind_rule(P, R, K)
     R.undecided += ["(c) the arithmetic inside each part (add_reaction, add_exchange, xexchange_save, totalize callees): dropped term, wrong coefficient, sign",
                     "(d) nothing becomes negative", "conservation itself (a numerical statement)"]
     # ------------------------------------------------------------------ C02.assemble
